@@ -1,5 +1,5 @@
 import DesperModel.Coro
-import DesperProofs.Lemmas.CoroOrder
+import DesperProofs.Lemmas.CoroGen
 open Desper Desper.Coro
 
 /-
@@ -14,6 +14,12 @@ open Desper Desper.Coro
   successful starts of `g` so far; `elapsed ops`: the dt accumulated by `ops`.  Times are integers
   (units of 1/8 s).  Every statement holds for all scripts `U`, all histories, all dt, all heap
   tie-breaks (`hint`).
+
+  Bodies may leave with an exception (`raise X` step endings: quit_loop() / switch() inside a
+  coroutine, a bug).  `process` then returns `Outcome.crashed X` instead of `Outcome.ok`; the
+  statements below hold for every program and say explicitly which of them concern calls that
+  return normally (hypothesis `(process …).2 = .ok`).  Reachable states include those left behind
+  by aborted calls, so "the call after an aborted one" is covered by every statement (D31).
 -/
 
 /-- a small program for the non-vacuity examples: 0 waits 2 s then 1/8 s; 1 yields every frame;
@@ -30,39 +36,55 @@ def C08_history : List Op := [.start 0, .start 1, .process 8 [], .start 2, .proc
 /-- `pc` is what the execution log shows: the number of `step g _` entries logged so far. -/
 theorem C08_progress_counts_logged_steps (U : Universe) (ops : List Op) (g : Gen) :
     (run U init ops).pc g = (stepGens (run U init ops).log).count g :=
-  run_pcLog U top_init ops pcLog_init g
+  run_pcLog_gen U top_init ops pcLog_init g
 
 example : stepGens (run C08_demo init C08_history).log = [2, 1, 1, 0] := by decide
 
-/-- **One step per frame.**  In a `process dt` call issued in any reachable state, every generator
-executes at most one step; one that is not in the deque when the run loop starts (still waiting,
-unknown, or started during the call) executes none and is not exhausted; one that is in the deque,
-not marked for killing, with code left, executes exactly one — unless one of the steps executed in
-this very call kills it (the explicit, decidable side condition; top-level kills happen between
-calls). -/
+/-- **One step per frame** (every program, every reachable state — also right after a call that a
+body aborted).  In a `process dt` call every generator executes at most one step, and one that is
+not in the deque when the run loop starts (still waiting, unknown, or started during the call)
+executes none.  If the call returns normally, every generator that is in the deque, not marked for
+killing, with code left, executes exactly one step — unless one of the steps executed in this very
+call kills it (the explicit, decidable side condition; top-level kills happen between calls) — and
+one that is not in the deque is not exhausted by the call.  (A call that a body aborts stops at
+the body that raises: the generators behind it are not advanced in that call, cf.
+`C08_aborted_call`.) -/
 theorem C08_one_step (U : Universe) (ops : List Op) (dt : Int) (hint : List Gen) (g : Gen) :
     let s := run U init ops
     let s' := (process U s dt hint).1
     s'.pc g ≤ s.pc g + 1 ∧ s.pc g ≤ s'.pc g ∧
-    (¬ runnableIn s dt g → s'.pc g = s.pc g ∧ s'.fin g = s.fin g) ∧
-    (runnableIn s dt g → s.kill g = false → hasCode U s g →
-      (∀ h, runnableIn s dt h → ∀ st, curStep U s h = some st → Act.kill g ∉ st.acts) →
-      s'.pc g = s.pc g + 1) :=
-  one_step U (run_top U top_init ops) dt hint g
+    (¬ runnableIn s dt g → s'.pc g = s.pc g) ∧
+    ((process U s dt hint).2 = .ok →
+      (¬ runnableIn s dt g → s'.fin g = s.fin g) ∧
+      (runnableIn s dt g → s.kill g = false → hasCode U s g →
+        (∀ h, runnableIn s dt h → ∀ st, curStep U s h = some st → Act.kill g ∉ st.acts) →
+        s'.pc g = s.pc g + 1)) := by
+  intro s s'
+  have T := run_top_gen U top_init ops
+  obtain ⟨b1, b2⟩ := process_pc_le U T.inv dt hint g
+  refine ⟨b2, b1, fun hn => ?_, fun hok => ?_⟩
+  · obtain ⟨pend, hact, _⟩ := process_frame (san U) T dt hint
+    apply process_pc_notin U T.inv
+    intro hm
+    exact hn ((pend_mem (san U) T dt hint hact g).mp (by rw [hact] at hm; simpa using hm))
+  · obtain ⟨_, _, h3, h4⟩ := one_step_ok U T dt hint g hok
+    exact ⟨fun hn => (h3 hn).2, h4⟩
 
 example : (process C08_demo (run C08_demo init C08_history) 8 []).1.pc 1 = 3 ∧
     (run C08_demo init C08_history).pc 1 = 2 := by decide
 
-/-- **Within a frame bodies run in deque order, each at most once.**  `pend` is the deque when the
+/-- **Within a frame bodies run in deque order, each at most once** (a call that returns normally).  `pend` is the deque when the
 run loop starts (the runnable generators in their order, followed by the newly woken ones); the
 steps logged by the call are those of a sub-sequence `ran` of `pend`, in that order. -/
 theorem C08_frame_runs_in_deque_order (U : Universe) (ops : List Op) (dt : Int) (hint : List Gen) :
     let s := run U init ops
+    (process U s dt hint).2 = .ok →
     ∃ pend ran : List Gen, (wakePhase s dt hint).1.active = none :: pend.map some ∧ pend.Nodup ∧
       ran.Sublist pend ∧ stepGens (process U s dt hint).1.log = ran.reverse ++ stepGens s.log :=
-  process_steps U (run_top U top_init ops) dt hint
+  fun hok => process_steps_ok U (run_top_gen U top_init ops) dt hint hok
 
-/-- **Order is stable from frame to frame.**  The generators that are in the deque after the call
+/-- **Order is stable from frame to frame** — whether the call returns normally or a body aborts it
+(the clean-up brings the sentinel back to the front without disturbing any relative order).  The generators that are in the deque after the call
 and were not started during it (`nStart` unchanged) appear there in the order in which the run loop
 met them.  With `C08_frame_runs_in_deque_order` for this and for the next call: coroutines that
 stay runnable execute in the same relative order in consecutive frames. -/
@@ -74,7 +96,12 @@ theorem C08_order_stable (U : Universe) (ops : List Op) (dt : Int) (hint : List 
         | some x => nStart s' x == nStart s x
         | none => false)).Sublist (pend.map some) := by
   intro s s'
-  obtain ⟨pend, h1, h2⟩ := process_order U (run_top U top_init ops) dt hint
+  have T := run_top_gen U top_init ops
+  obtain ⟨pend, h1, h2⟩ : ∃ pend : List Gen, (wakePhase s dt hint).1.active = none :: pend.map some ∧
+      (s'.active.filter (unrestarted s s')).Sublist (pend.map some) := by
+    rcases process_outcome U T.inv dt hint with hok | ⟨e, hc⟩
+    · exact process_order_ok U T dt hint hok
+    · exact process_order_crashed U T dt hint hc
   refine ⟨pend, h1, ?_⟩
   have : (fun e : Option Gen => match e with
         | some x => nStart s' x == nStart s x
@@ -93,14 +120,14 @@ theorem C08_nonpositive_is_next_frame (U : Universe) (ops : List Op) (dt : Int) 
     (g : Gen) (st : Step) (w : Option Int) :
     let s := run U init ops
     let s' := (process U s dt hint).1
-    runnableIn s dt g → s.kill g = false → hasCode U s g → curStep U s g = some st →
+    (process U s dt hint).2 = .ok → runnableIn s dt g → s.kill g = false → hasCode U s g → curStep U s g = some st →
     st.fin = .yield w →
     (∀ h, runnableIn s dt h → ∀ st, curStep U s h = some st → Act.kill g ∉ st.acts) →
     (positive w = true →
       ((⟨some g, w.getD 0 + s'.timer⟩ : Rec) ∈ s'.waiting ∨ nStart s g < nStart s' g)) ∧
     (positive w = false → some g ∈ s'.active ∧ ∀ dt', runnableIn s' dt' g) := by
-  intro s s' hr hk hc hs hw hno
-  obtain ⟨h1, h2⟩ := process_after_yield U (run_top U top_init ops) dt hint hr hk hc hs hw hno
+  intro s s' hok hr hk hc hs hw hno
+  obtain ⟨h1, h2⟩ := process_after_yield_ok U (run_top_gen U top_init ops) dt hint hok hr hk hc hs hw hno
   exact ⟨h1, fun hp => ⟨h2 hp, fun _ => .inl (h2 hp)⟩⟩
 
 example : (⟨some 0, 16 + 0⟩ : Rec) ∈ (run C08_demo init [.start 0, .process 8 []]).waiting := by decide
@@ -113,7 +140,8 @@ accumulated dt (so the remaining wait shrank by exactly that much, whatever else
 clock is reset only when the heap is empty), and `g` has executed no step.
 *Never later*: in the first `process dt` call by which the accumulated dt reaches the remaining wait,
 `g` is in the deque when the run loop starts and — if no kill is pending or issued in that call and
-it has code — executes exactly one step in that call. -/
+it has code and the call returns normally — executes exactly one step in that call.  The history
+`ops` may contain calls that a body aborted: they count like any other call. -/
 theorem C08_wake_exact (U : Universe) (ops0 ops : List Op) (g : Gen) (d : Int) (dt : Int)
     (hint : List Gen) :
     let s := run U init ops0
@@ -124,19 +152,59 @@ theorem C08_wake_exact (U : Universe) (ops0 ops : List Op) (g : Gen) (d : Int) (
     ((⟨some g, d⟩ : Rec) ∈ s1.waiting ∧ s1.timer = s.timer + elapsed ops ∧ s1.pc g = s.pc g) ∧
     (d ≤ s.timer + elapsed ops + dt → s1.kill g = false →
       (runnableIn s1 dt g ∧
-        (hasCode U s1 g →
+        ((process U s1 dt hint).2 = .ok → hasCode U s1 g →
           (∀ h, runnableIn s1 dt h → ∀ st, curStep U s1 h = some st → Act.kill g ∉ st.acts) →
           s2.pc g = s.pc g + 1))) := by
   intro s s1 s2 hm hnn hd hns
-  have T := run_top U top_init ops0
-  obtain ⟨k1, k2, k3⟩ := wake_exact U T ops hm hnn hd hns
+  have T := run_top_gen U top_init ops0
+  obtain ⟨k1, k2, k3⟩ := wake_exact_gen U T ops hm hnn hd hns
   refine ⟨⟨k1, k2, k3⟩, fun hdue hk => ?_⟩
   have hr : runnableIn s1 dt g := .inr ⟨d, k1, by rw [k2]; exact hdue, hk⟩
-  refine ⟨hr, fun hc hno => ?_⟩
-  have T1 : Top s1 := run_top U T ops
-  have := (one_step U T1 dt hint g).2.2.2 hr hk hc hno
+  refine ⟨hr, fun hok hc hno => ?_⟩
+  have T1 : Top s1 := run_top_gen U T ops
+  have := (one_step_ok U T1 dt hint g hok).2.2.2 hr hk hc hno
   rw [this, k3]
 
 example : (run C08_demo init [.start 0, .start 1, .process 8 [], .process 8 [], .process 7 []]).pc 0 = 1 ∧
     (run C08_demo init [.start 0, .start 1, .process 8 [], .process 8 [], .process 7 [], .process 1 []]).pc 0 = 2 := by
+  decide
+
+/-- a program with a body that raises: generator 1 leaves with `Quit` in its second step, generator
+0 is queued in front of it, 2 and 3 behind it -/
+def C08_raising : Universe :=
+  { script := fun g =>
+      if g = 1 then some [⟨[], .yield none⟩, ⟨[], .raise "Quit"⟩, ⟨[], .ret none⟩]
+      else if g < 4 then some [⟨[], .yield none⟩, ⟨[], .yield none⟩, ⟨[], .yield none⟩,
+                               ⟨[], .yield none⟩, ⟨[], .ret none⟩]
+      else none }
+
+def C08_raising_history : List Op :=
+  [.start 0, .start 1, .start 2, .start 3, .process 1 [], .process 1 []]
+
+/-- **A call that a body aborts** (every program, every reachable state): when `process` is left
+by the exception of a body, the sentinel is in front of the deque again when the call returns
+(hence the next call meets *every* runnable coroutine: `C08_one_step` applies to it in full, and
+`C08_order_stable` says the order was kept), no generator was advanced more than once
+(`C08_one_step`), and the generator that raised — it was in the deque of this call — is in no table
+any more and exhausted. -/
+theorem C08_aborted_call (U : Universe) (ops : List Op) (dt : Int) (hint : List Gen) (e : String) :
+    let s := run U init ops
+    let s' := (process U s dt hint).1
+    (process U s dt hint).2 = .crashed e →
+    (∃ rest, s'.active = none :: rest) ∧
+    ∃ g, runnableIn s dt g ∧ s'.gens g = none ∧ some g ∉ s'.active ∧ s'.fin g = true := by
+  intro s s' hc
+  obtain ⟨g, hr, hg, hf, T'⟩ := process_crashed U (run_top_gen U top_init ops) dt hint hc
+  exact ⟨T'.head, g, hr, hg, (T'.inv.nowhere g hg).1, hf⟩
+
+/-- D31, positively: generator 1 raises in the second frame (`C08_raising_history` ends with that
+aborted call); the next call advances 0, 2 and 3 — each exactly once —, and so does the one after. -/
+example :
+    let s := run C08_raising init C08_raising_history
+    let s1 := (process C08_raising s 1 []).1
+    let s2 := (process C08_raising s1 1 []).1
+    s.log.head? = some (.res (.crashed "Quit")) ∧ s.active = [none, some 0, some 2, some 3] ∧
+    (s1.pc 0, s1.pc 2, s1.pc 3) = (s.pc 0 + 1, s.pc 2 + 1, s.pc 3 + 1) ∧
+    (s2.pc 0, s2.pc 2, s2.pc 3) = (s1.pc 0 + 1, s1.pc 2 + 1, s1.pc 3 + 1) ∧
+    stepGens s2.log = [3, 2, 0, 3, 2, 0, 1, 0, 3, 2, 1, 0] := by
   decide
